@@ -76,6 +76,7 @@ pub const RULES: &[(&str, &[&str])] = &[
     ("io.flags_not_restored", &["C17", "C15"]),
     ("io.bytes_corrupted", &["C17"]),
     ("io.task_not_woken", &["C17", "C02"]),
+    ("io.no_progress", &["C17"]),
     ("stream.after_end", &["C10"]),
     ("stream.items_left", &["C10", "C02"]),
     ("stream.wrong_item", &["C10", "C01"]),
